@@ -55,12 +55,11 @@ class Fru(object):
         data = array.array('B')
 
         # first check for maximum area size
-        if offset is None:
+        off = offset or 0
+        if count is None:
             area_size = self.get_fru_inventory_area_info(fru_id)
-            off = 0
         else:
-            area_size = offset + count
-            off = offset
+            area_size = off + count
 
         while off < area_size:
             if (off + req_size) > area_size:
@@ -103,24 +102,32 @@ class Fru(object):
 
     def get_fru_chassis_area(self, fru_id=0):
         header = self.get_fru_inventory_header(fru_id=fru_id)
+        if not header.chassis_info_area_offset:
+            return None
         data = self._read_fru_area(offset=header.chassis_info_area_offset,
                                    fru_id=fru_id)
         return InventoryChassisInfoArea(data)
 
     def get_fru_board_area(self, fru_id=0):
         header = self.get_fru_inventory_header(fru_id=fru_id)
+        if not header.board_info_area_offset:
+            return None
         data = self._read_fru_area(offset=header.board_info_area_offset,
                                    fru_id=fru_id)
         return InventoryBoardInfoArea(data)
 
     def get_fru_product_area(self, fru_id=0):
         header = self.get_fru_inventory_header(fru_id=fru_id)
+        if not header.product_info_area_offset:
+            return None
         data = self._read_fru_area(offset=header.product_info_area_offset,
                                    fru_id=fru_id)
         return InventoryProductInfoArea(data)
 
     def get_fru_multirecord_area(self, fru_id=0):
         header = self.get_fru_inventory_header(fru_id=fru_id)
+        if not header.multirecord_area_offset:
+            return None
 
         # we have to determine the length of the area first
         offset = header.multirecord_area_offset
